@@ -62,7 +62,10 @@ PickLow ==
 PickHigh ==
   /\ ph = 1 /\ ph' = 2
   /\ \E S \in SUBSET ((Half + 1)..USize) : \E d \in (IF WithDup THEN BOOLEAN ELSE {FALSE}) :
-        lines' = lines \o Pick(S, Half + 1) \o (IF d THEN <<Dup>> ELSE <<>>)
+        \* the order of the lines of a file is free: the files with an even number of lines are written in reverse order
+        \* (export lines before supply lines, the duplicate first ...)
+        LET all == lines \o Pick(S, Half + 1) \o (IF d THEN <<Dup>> ELSE <<>>) IN
+        lines' = IF Len(all) % 2 = 0 THEN [i \in 1..Len(all) |-> all[Len(all) + 1 - i]] ELSE all
   /\ red1' \in {NoUser, UserRed1} /\ red2' \in {NoUser, UserRed2}
 Next == PickLow \/ PickHigh
 Spec == Init /\ [][Next]_vars
